@@ -553,7 +553,7 @@ class Function:
                     mm = re.match(r'_(\d+)$', m.group(2))
                     if mm:
                         self.debug[int(mm.group(1))] = m.group(1)
-                    mu = re.match(r'\(\(\*_\d+\)\.(\d+): ', m.group(2))
+                    mu = re.search(r'\(\(\*_\d+\)\.(\d+): ', m.group(2))
                     if mu:
                         self.upvar_names[int(mu.group(1))] = m.group(1)
                     continue
